@@ -118,6 +118,12 @@ class CategoricalDiscretizer(BaseDiscretizer):
 
     @extend_docstring(BaseDiscretizer.fit)
     def fit(self, X: DataFrame, y: Series) -> None:  # pylint: disable=W0222
+        # a fitted discretizer is not fitted anew (checked first, so that a refused call modifies nothing)
+        assert not self.is_fitted, (
+            " - [Discretizer] This Discretizer has already been fitted. Fitting it anew could break "
+            "established orders. Please initialize a new one."
+        )
+
         # copying dataframe and checking data before bucketization
         x_copy = self._prepare_data(X, y)
 
@@ -295,6 +301,12 @@ class OrdinalDiscretizer(BaseDiscretizer):
 
     @extend_docstring(BaseDiscretizer.fit)
     def fit(self, X: DataFrame, y: Series) -> None:  # pylint: disable=W0222
+        # a fitted discretizer is not fitted anew (checked first, so that a refused call modifies nothing)
+        assert not self.is_fitted, (
+            " - [Discretizer] This Discretizer has already been fitted. Fitting it anew could break "
+            "established orders. Please initialize a new one."
+        )
+
         if self.verbose:  # verbose if requested
             print(f" - [OrdinalDiscretizer] Fit {str(self.features)}")
 
@@ -598,6 +610,12 @@ class ChainedDiscretizer(BaseDiscretizer):
 
     @extend_docstring(BaseDiscretizer.fit)
     def fit(self, X: DataFrame, y: Series = None) -> None:  # pylint: disable=W0222
+        # a fitted discretizer is not fitted anew (checked first, so that a refused call modifies nothing)
+        assert not self.is_fitted, (
+            " - [Discretizer] This Discretizer has already been fitted. Fitting it anew could break "
+            "established orders. Please initialize a new one."
+        )
+
         # filling nans
         x_copy = self._prepare_data(X, y)
 
